@@ -1,8 +1,9 @@
 """pyvc.source -- read the real xfab sources from $XFAB_SRC (default /repo) on every run.
 
 Functions are extracted mechanically with `ast`; nothing is cached across runs.  What the
-extraction drops: the docstring (kept out of the hash so that doc edits are benign) and the
-module-level imports (replaced by the model namespace given by the caller).
+extraction drops: the docstring (kept out of the hash so that doc edits are benign), decorators,
+type annotations (no run-time meaning) and the module-level imports (replaced by the model
+namespace given by the caller).
 """
 import ast
 import copy
@@ -72,6 +73,7 @@ class Source:
         """compile the real function body in `namespace` and return the function object"""
         node = copy.deepcopy(node if node is not None else self.funcdef(module, name))
         node.decorator_list = []
+        node = strip_annotations(node)
         if transform is not None:
             node = transform(node)
         mod = ast.Module(body=[node], type_ignores=[])
@@ -86,6 +88,31 @@ class Source:
             ns[node.name] = saved        # keep the contract stub for calls by name; the compiled function is returned
         fn.__pyvc_ns__ = ns
         return fn
+
+
+class _NoAnnotations(ast.NodeTransformer):
+    """type hints have no run-time meaning: parameter / return annotations are removed and `x: T = v` becomes `x = v`"""
+
+    def visit_FunctionDef(self, node):
+        self.generic_visit(node)
+        node.returns = None
+        for a in node.args.posonlyargs + node.args.args + node.args.kwonlyargs:
+            a.annotation = None
+        if node.args.vararg:
+            node.args.vararg.annotation = None
+        if node.args.kwarg:
+            node.args.kwarg.annotation = None
+        return node
+
+    def visit_AnnAssign(self, node):
+        self.generic_visit(node)
+        if node.value is None:
+            return ast.copy_location(ast.Pass(), node)
+        return ast.copy_location(ast.Assign(targets=[node.target], value=node.value), node)
+
+
+def strip_annotations(node):
+    return ast.fix_missing_locations(_NoAnnotations().visit(node))
 
 
 def strip_doc(node):
